@@ -77,10 +77,47 @@ def mapped_trigger_scripts(rng, tier):
     return out
 
 
+def wrap_event_scripts(rng, tier):
+    """implementation only (the Layer 1 model starts at tick 0): a long-running server whose tick crosses 2^32 while events
+    overtake the update messages of their ticks: an event stamped with a small post-wrap tick must wait although the client's
+    update tick is a large pre-wrap number"""
+    out = []
+    for i in range(24 if tier == "quick" else 800):
+        ncl = rng.choice([1, 2])
+        t0 = 2**32 - rng.randrange(2, 9)
+        lines = ["cfg policy=all auth=none track=0 nclients=%d timeout=10000 tick0=%d" % (ncl, t0), "start", "sframe 0 10"]
+        for c in range(ncl):
+            lines.append("connect %d 1200" % c)
+        lines.append("sop spawn 1 1 0=1")
+        lines.append("sframe 1 16")
+        for c in range(ncl):
+            lines += ["deliver %d s2c 0 all" % c, "cframe %d" % c, "deliver %d c2s 0 all" % c]
+        seq, ent = 0, 2
+        for _ in range(rng.randrange(5, 14)):
+            if rng.random() < 0.7:
+                lines.append("sop spawn %d 1 0=%d" % (ent, rng.randrange(50)))
+                ent += 1
+            for _ in range(rng.choice([0, 1, 1, 2])):
+                seq += 1
+                ty = rng.choice(["SE0", "SEM", "ST", "SE0"])
+                ref = " r%d" % rng.randrange(1, ent) if ty == "SEM" or (ty == "ST" and rng.random() < 0.6) else ""
+                lines.append("sop ev %s b %d%s" % (ty, seq, ref))
+            lines.append("sframe 1 16")
+            for c in range(ncl):
+                for _ in range(rng.choice([0, 1, 2])):          # the event channels run ahead of the update channel
+                    lines += ["deliver %d s2c 2 all" % c, "deliver %d s2c 4 all" % c, "deliver %d s2c 6 all" % c, "cframe %d" % c]
+                if rng.random() < 0.5:
+                    lines += ["deliver %d s2c 0 %s" % (c, rng.choice(["all", "first"])), "cframe %d" % c, "deliver %d c2s 0 all" % c]
+        meta = dict(connected=list(range(ncl)), events=True)
+        sf = len(lines)
+        out.append(("event-across-wrap-%d" % i, lines + gen_scripts.settle_lines(meta), sf))
+    return out
+
+
 def run(tier, seed, replay):
     kws = [dict(events=True, weights=dict(sev=4.0, edeliver=5.0, deliver=2.0)), dict(events=True, nclients=3, auth="custom"), dict(events=True, policy="black"), dict(events=True, weights=dict(sev=3.0, sop=6.0))]
-    return sim_check("C04", tier, seed, kws, n_quick=240, n_thorough=24000, oracle_props={"C04"}, known_ids=("D19",), custom_scripts=mixed_tick_scripts, impl_only_scripts=mapped_trigger_scripts,
-                     impl_only_label="a server trigger with a mapped payload whose target the client cannot resolve",
+    return sim_check("C04", tier, seed, kws, n_quick=240, n_thorough=24000, oracle_props={"C04"}, known_ids=("D19", "D31"), custom_scripts=mixed_tick_scripts, impl_only_scripts=lambda rng, tier: mapped_trigger_scripts(rng, tier) + wrap_event_scripts(rng, tier),
+                     impl_only_label="a server trigger with a mapped payload whose target the client cannot resolve; events overtaking update messages while the server tick crosses 2^32",
                      rule_extra=", server events of every kind (ordered, independent, mapped, unreliable, triggers with targets) emitted in arbitrary frames with event channels delayed independently of the update channel",
                      extra_assumptions=["'withheld' is read as 'not delivered': a ready event whose entity cannot be resolved on the client is dropped, not retried (C04_references_resolve_or_dropped)"],
                      model_name="RV.Repl.Sys + RV.Events.Remote")
